@@ -126,6 +126,8 @@ func (t *transport) startActive(ctx context.Context) error {
 
 	t.applyKeepAlive(conn)
 
+	vgate("tr.start.dialed")
+
 	// Derive the Select procedure's ctx from the generation ctx so a teardown (which cancels the
 	// generation ctx) also cancels a pending Select wait. procCancel is Stop's explicit lever for
 	// the same, needed when Start's ctx is never cancelled by its parent (unit tests).
